@@ -109,6 +109,34 @@ class C18Machine(RuleBasedStateMachine):
             self.report('sequential-differs', 'op #%d %s(%s) after history %r gave %s, alone on a fresh compile it '
                         'gives %s' % (len(self.history), op[0], op[1], self.history[:-1], got[:300], want[:300]))
 
+    @precondition(lambda self: self.ok and not getattr(self, 'stormed', False) and len(self.history) < 40)
+    @rule(rounds=st.sampled_from([5, 20]))
+    def storm(self, rounds):
+        """state that failing calls leave behind may only show after many of them: every failing operation of the pool
+        `rounds` times in a row, then every operation once, each compared with its outcome on a fresh compile"""
+        self.stormed = True
+        failing = [i for i in range(len(self.pool)) if self.oracle(i).startswith('exc:')]
+        try:
+            with watchdog(60):
+                for _ in range(rounds):
+                    for i in failing:
+                        k_, n_, p_ = self.pool[i]
+                        run_op(self.shared, (k_, n_, copy.deepcopy(p_)))
+        except CaseHang:
+            self.REC.notes['op-hang(C08)'] += 1
+            self.ok = False
+            return
+        self.history.append(-rounds)
+        for i in range(len(self.pool)):
+            if not self.ok:
+                return
+            self.REC.ev()
+            k_, n_, p_ = self.pool[i]
+            got = run_op(self.shared, (k_, n_, copy.deepcopy(p_)))
+            if got != self.oracle(i):
+                self.report('sequential-differs', 'after %d rounds of the %d failing operations, %s(%s) gave %s, alone on a '
+                            'fresh compile it gives %s' % (rounds, len(failing), k_, n_, got[:300], self.oracle(i)[:300]))
+
     @rule()
     def idle(self):
         pass
@@ -122,8 +150,9 @@ class C18Machine(RuleBasedStateMachine):
     def teardown(self):
         if not self.ok or len(self.history) < 2:
             return
-        fails = [i for i in set(self.history) if self.oracle(i).startswith('exc:')]
-        if (fails and any(not self.oracle(i).startswith('exc:') for i in self.history)) or self.recursive:
+        hist = [i for i in self.history if i >= 0]
+        fails = [i for i in set(hist) if self.oracle(i).startswith('exc:')]
+        if (fails and any(not self.oracle(i).startswith('exc:') for i in hist)) or self.recursive:
             self.REC.nt(self.text, self.codec, self.history)
         # threaded replay of the same history
         nthreads = 1 + (len(self.history) * 7) % 8
@@ -139,7 +168,8 @@ class C18Machine(RuleBasedStateMachine):
                     barrier.wait()
                     for j in range(t, len(self.history), nthreads):
                         i = self.history[j]
-                        results[j] = run_op(self.shared, self.pool[i])
+                        if i >= 0:
+                            results[j] = run_op(self.shared, self.pool[i])
                 ths = [threading.Thread(target=worker, args=(t,)) for t in range(nthreads)]
                 for t in ths:
                     t.start()
@@ -149,6 +179,8 @@ class C18Machine(RuleBasedStateMachine):
                     self.REC.notes['thread-hang'] += 1
                     return
                 for j, i in enumerate(self.history):
+                    if i < 0:
+                        continue
                     self.REC.ev()
                     if results.get(j) != self.oracle(i):
                         self.report('threaded-differs', 'with %d threads (switch interval %g) op #%d %s(%s) gave %s, '
@@ -168,7 +200,8 @@ class C18(Check):
     engine = 'hypothesis stateful'
     rule = ('histories = up to 50 operations (encode of valid / ill-typed values with and without checks, decode of '
             'valid / truncated / bit-flipped bytes on up to 3 types) on ONE compiled specification; each result is '
-            'compared with the same call on a freshly compiled specification, arguments must be unmodified; the same '
+            'compared with the same call on a freshly compiled specification, arguments must be unmodified; once per history '
+            'every failing operation is repeated 5 or 20 times in a row and then every operation is compared again; the same '
             'history is then replayed on 1-8 threads (3 repetitions, switch interval 5ms/50us/1us); evaluation = one '
             'operation compared; non-trivial = history mixes failing and succeeding operations or uses a recursive '
             'type; distinct = hash(module, codec, history)')
@@ -191,6 +224,22 @@ class C18(Check):
         shared = asn1tools.compile_dict(copy.deepcopy(parsed), codec)
         pool = [(k, n, jsonio.dec(p)) for k, n, p in case['pool']]
         for j, i in enumerate(case['history']):
+            if i < 0:
+                fresh = {}
+                for q in range(len(pool)):
+                    fresh[q] = run_op(asn1tools.compile_dict(copy.deepcopy(parsed), codec),
+                                      (pool[q][0], pool[q][1], copy.deepcopy(pool[q][2])))
+                for _ in range(-i):
+                    for q in range(len(pool)):
+                        if fresh[q].startswith('exc:'):
+                            run_op(shared, (pool[q][0], pool[q][1], copy.deepcopy(pool[q][2])))
+                for q in range(len(pool)):
+                    got = run_op(shared, (pool[q][0], pool[q][1], copy.deepcopy(pool[q][2])))
+                    if got != fresh[q]:
+                        rec.fail(Failure('sequential-differs', 'after the storm op %d gave %s, alone %s'
+                                         % (q, got[:200], fresh[q][:200]), case))
+                        return
+                continue
             want = run_op(asn1tools.compile_dict(copy.deepcopy(parsed), codec),
                           (pool[i][0], pool[i][1], copy.deepcopy(pool[i][2])))
             before = jsonio.dumps(jsonio.enc(pool[i][2]))
